@@ -73,6 +73,7 @@ func Run(c Case) core.Result {
 	add(blank, "blank-query")
 	add(perr, "parser-error")
 	add(zero, "zero-statements")
+	add(c.TLS, "inside-tls")
 	res.NonTrivial = multi || errAfterRows || failedRow || afterDone
 
 	o := play.Run(c, play.Options{Prefix: "C05"})
